@@ -52,6 +52,7 @@ enum Target {
     Slice(usize),
     Str(usize),
     Swh(usize),
+    Swa(usize),
     Dyn,
     Zst(usize),
     Zc,
@@ -65,6 +66,7 @@ impl Target {
             Target::Slice(n) => format!("slice:{n}"),
             Target::Str(n) => format!("str:{n}"),
             Target::Swh(n) => format!("swh:{n}"),
+            Target::Swa(n) => format!("swa:{n}"),
             Target::Dyn => "dyn".into(),
             Target::Zst(a) => format!("zst:{a}"),
             Target::Zc => "zc:8:16".into(),
@@ -79,6 +81,7 @@ impl Target {
             ["slice", n] => n.parse().ok().map(Target::Slice),
             ["str", n] => n.parse().ok().map(Target::Str),
             ["swh", n] => n.parse().ok().map(Target::Swh),
+            ["swa", n] => n.parse().ok().map(Target::Swa),
             ["zst", a] => a.parse().ok().filter(|a| [1, 2, 4, 8, 16, 32, 64].contains(a)).map(Target::Zst),
             ["zc", "8", "16"] => Some(Target::Zc),
             _ => None,
@@ -86,7 +89,7 @@ impl Target {
     }
     fn n(self) -> usize {
         match self {
-            Target::Slice(n) | Target::Str(n) | Target::Swh(n) => n,
+            Target::Slice(n) | Target::Str(n) | Target::Swh(n) | Target::Swa(n) => n,
             Target::Array => types::ARRAY_N,
             _ => 0,
         }
@@ -117,6 +120,10 @@ macro_rules! with_fam {
             }
             Target::Swh(_) => {
                 type $f = FSwh;
+                $body
+            }
+            Target::Swa(_) => {
+                type $f = FSwa;
                 $body
             }
             Target::Zst(1) => {
@@ -534,7 +541,7 @@ fn main() {
         for t in main_targets {
             target_cases(&mut cx, t, true, 4);
         }
-        let mut others = vec![Target::Slice(0), Target::Str(0), Target::Swh(2), Target::Swh(0), Target::Zc];
+        let mut others = vec![Target::Slice(0), Target::Str(0), Target::Swh(2), Target::Swh(0), Target::Swa(3), Target::Swa(0), Target::Zc];
         for a in [1, 2, 4, 8, 16, 32, 64] {
             others.push(Target::Zst(a));
         }
